@@ -63,7 +63,8 @@ SENDER_TOKENS = [
 connect_pre = [
     (r'auto (\w+) = std::move\((\w+)\)\.scope_;', r'scope_reference \1; sr_move(&\1, &\2->scope_);'),
     (r'auto (\w+) = (\w+)\.scope_;', r'scope_reference \1; sr_copy(&\1, &\2->scope_);'),
-    (r'if \((\w+)\) \{', r'if (SR_BOOL(&\1)) {'),
+    (r'if \((!?)(\w+)\.scope_\) \{', r'if (\1SR_BOOL(&\2->scope_)) {'),
+    (r'if \((!?)(\w+)\) \{', r'if (\1SR_BOOL(&\2)) {'),
     # the operation is constructed in the caller's return slot (guaranteed elision); an exception of the constructor leaves the
     # function through the same exits as the return (the same locals are destroyed on both edges)
     (r'(?s)return nest_op<(?:const Sender&|Sender), remove_cvref_t<Receiver>>\{\s*([^;{}]*?),\s*static_cast<Receiver&&>\((\w+)\),\s*std::move\((\w+)\)\};',
